@@ -14,26 +14,38 @@ def main():
     if not os.path.realpath(geodepy.__file__).startswith(os.path.realpath(repo) + os.sep):
         print('ENGINE-ERROR: geodepy imported from %s, not from %s' % (geodepy.__file__, repo))
         sys.exit(3)
+    fi = d.get('failing_input') or {}
+    inp = fi.get('input', fi) if isinstance(fi, dict) else {}
+    chunk = inp.get('_chunk') if isinstance(inp, dict) else None
+    if isinstance(chunk, dict) and chunk.get('tz'):
+        import time
+        os.environ['TZ'] = chunk['tz']          # the time zone is part of the recorded configuration
+        time.tzset()
+    r = None
     try:
         mod = importlib.import_module('props.' + pid)
-        if not hasattr(mod, 'replay'):
-            print('replay: %s has no native replay; re-run ./check %s (obligation %s)' % (pid, pid, d.get('obligation')))
-            print(json.dumps(d, indent=1)[:3000])
-            sys.exit(0)
-        fi = d.get('failing_input') or {}
-        if isinstance(fi, dict) and fi.get('history_input'):
-            # a two-call history: the earlier call first (same process, so written module state carries over)
-            d0 = json.loads(json.dumps(d))
-            d0['failing_input'] = dict(input=fi['history_input'])
+        if hasattr(mod, 'replay'):
+            if isinstance(fi, dict) and fi.get('history_input'):
+                # a two-call history: the earlier call first (same process, so written module state carries over)
+                d0 = json.loads(json.dumps(d))
+                d0['failing_input'] = dict(input=fi['history_input'])
+                try:
+                    mod.replay(d0)
+                except Exception:
+                    pass
             try:
-                mod.replay(d0)
+                r = mod.replay(d)
             except Exception:
-                pass
-        r = mod.replay(d)
-        if d.get('layer') == 'B' and isinstance(r, dict) and 'note' in r and 'observed' not in r and 'what' not in r:
-            # the property has no per-case replay for this bounded check: re-run the recorded work item
+                traceback.print_exc()
+                r = None          # the per-input replay does not understand this record: the generic replays below decide
+        if isinstance(r, dict) and 'note' in r and 'observed' not in r and 'what' not in r:
+            r = None              # "no per-input replay for this record"
+        if not r and d.get('layer') == 'B' and chunk is not None:
+            # re-run the work item the failure came from (same seed, same configuration) and look for the same input
             from . import bounded
-            r = bounded.replay_chunk('bounded.' + pid, d.get('check'), fi.get('input', fi) if isinstance(fi, dict) else {})
+            r = bounded.replay_chunk('bounded.' + pid, d.get('check'), inp)
+            if isinstance(r, dict) and 'note' in r and 'what' not in r:
+                r = None
     except SystemExit:
         raise
     except BaseException:
